@@ -44,13 +44,11 @@ CONFIG = dict(
     assumptions=["CPython; a greenlet's f_back chain ends at its run function (greenlet >= 1.0 behaviour)",
                  "the greenlet tree does not change during one extraction"],
     unproved_legs=["greenback: the frame shapes of greenback/greenlet/outcome/trio (what each object unwraps to, which frames "
-                   "follow which) are modelled from recorded runs, not derived; the theorems C15_greenback_n_* hold for the "
-                   "model M_Greenback.gb_extract, whose agreement with the real extract(task.coro) is checked by the "
-                   "correspondence kind 'gb' for n <= 3 / j <= 2 (thorough n <= 6 / j <= 3) only; the composition with the "
-                   "general extract_iter model (M_Frames) is not proved -- gb_extract is a specialised walk (hook results that "
-                   "are objects replace the whole inward rest)",
-                   "C15_asker_independent_ancestor takes as hypothesis that the ancestor's chain is one of the parent chains of "
-                   "the asker's world (true by construction of the world)"],
+                   "follow which) are modelled from recorded runs, not derived; agreement of M_Greenback.gb_extract with the real "
+                   "extract(task.coro) is checked by the correspondence kind 'gb' for n <= 3 / j <= 2 (thorough n <= 6 / j <= 3)",
+                   "greenback: the composition of the tabulated hooks with the general extract_iter model (M_Frames.extract) "
+                   "is proved by a finite sweep for n <= 6, j <= 3 (C15_greenback_composes_with_extract_iter), not for all n; "
+                   "the for-all-n theorems C15_greenback_n_* are about the specialised walk gb_extract"],
     timeout={"quick": 900, "thorough": 3600},
     NOTES="greenback: specialised model M_Greenback instead of an M_Frames hook table (M_Frames.elab does not see next_inner).",
 )
